@@ -1,6 +1,7 @@
 package gen
 
 import (
+	"encoding/json"
 	"fmt"
 	"sort"
 
@@ -986,6 +987,32 @@ func (g *dgen) newResultType() *spec.UserType {
 			o.Fields = append(o.Fields, &spec.Attr{Name: "spacer", Type: &spec.Type{Kind: spec.Int}}, f2)
 			g.feat("views:same-type-two-views")
 		}
+	}
+	// a nested result type that is a structural TWIN of the child's type (same attributes, another name,
+	// other views): what tells the two apart is their name only
+	if c := o.Field("child"); c != nil && g.chance("rt-twin", "views", 1, 2, 4) {
+		nu := g.d.UserType(c.Type.Name)
+		g.seq++
+		tw := &spec.UserType{Name: fmt.Sprintf("RT%dTwin", g.seq), IsResult: true, Identifier: fmt.Sprintf("application/vnd.rt%dtwin", g.seq)}
+		var cp spec.Attr
+		b, _ := json.Marshal(nu.Attr)
+		json.Unmarshal(b, &cp)
+		tw.Attr = &cp
+		names := make([]string, len(cp.Type.Fields))
+		for i, f := range cp.Type.Fields {
+			names[i] = f.Name
+		}
+		if len(nu.Views[0].Fields) == len(names) {
+			tw.Views = []*spec.View{{Name: "default", Fields: names[:1]}}
+		} else {
+			tw.Views = []*spec.View{{Name: "default", Fields: names}}
+		}
+		for _, v := range nu.Views[1:] {
+			tw.Views = append(tw.Views, &spec.View{Name: v.Name, Fields: names[len(names)-1:]})
+		}
+		g.d.Types = append(g.d.Types, tw)
+		o.Fields = append(o.Fields, &spec.Attr{Name: "spacer2", Type: &spec.Type{Kind: spec.Int}}, &spec.Attr{Name: "twin", Type: &spec.Type{Kind: spec.User, Name: tw.Name}})
+		g.feat("views:structural-twin")
 	}
 	u.Attr = &spec.Attr{Type: o}
 	all := make([]string, len(o.Fields))
